@@ -41,6 +41,9 @@ class ConeCtx:
         self.policy = ConePolicy()
 
     def V(self, name):
+        name = Sym.resolve(name)
+        if isinstance(name, Fraction):
+            return Sym(name)          # pinned on the equality locus under exploration
         if self.values is None:
             return Sym.var(name)
         if name in self.used_values:
